@@ -17,7 +17,7 @@ RULE = ("ideal and two-stage continuous batteries with noise off; initial charge
         "(knee = pilot_transition_soc, transition_soc, crossing exactly at the end of T and of T/2, exactly filling, "
         "full, empty) +- {0,1e-12,1e-9,1e-6,1e-3}; each case is ONE probe sequence on one object: charge(T); reset(c); "
         "charge(T/2) twice; reset(c); charge(T/3) three times; reset(c); charge with a larger pilot; reset(c); charge for "
-        "a longer period; reset(c); charge(pilot 0); reset() — so the implementation outputs of every law are recorded "
+        "a longer period; reset(c); charge; charge(pilot 0); charge; reset() — so the implementation outputs of every law are recorded "
         "and the model is compared on all of them; non-trivial = distinct (battery, probe parameters); second stream: "
         "model vs RK4 integration of the documented ODE; third: rational exp vs math.exp")
 ASSUMPTIONS = c03.ASSUMPTIONS + [
@@ -34,10 +34,10 @@ def probe_ops(c, p, p_hi, V, T, T_long):
             ("charge", p, V, T / 3, n), ("charge", p, V, T / 3, n), ("charge", p, V, T / 3, n), ("reset", c),
             ("charge", p_hi, V, T, n), ("reset", c),
             ("charge", p, V, T_long, n), ("reset", c),
-            ("charge", 0, V, T, n), ("reset", None)]
+            ("charge", p, V, T, n), ("charge", 0, V, T, n), ("charge", p, V, T, n), ("reset", None)]
 
 
-I_FULL, I_HALF2, I_THIRD3, I_HI, I_LONG, I_ZERO, I_RESET = 0, 3, 7, 9, 11, 13, 14
+I_FULL, I_HALF2, I_THIRD3, I_HI, I_LONG, I_PRE_ZERO, I_ZERO, I_RESET = 0, 3, 7, 9, 11, 13, 14, 16
 
 
 def rand_probe(rng):
@@ -161,9 +161,9 @@ def monitor(case):
         return "delivered energy decreased when the pilot was raised from %r to %r" % (p, pr["p_hi"])
     if obs[I_LONG]["charge"] < full["charge"] - tol:
         return "delivered energy decreased when the period was extended from %r to %r" % (T, pr["T_long"])
-    z = obs[I_ZERO]
-    if z["rate"] != 0 or z["power"] != 0 or z["charge"] != c:
-        return "zero pilot delivered something: rate %r power %r charge %r -> %r" % (z["rate"], z["power"], c, z["charge"])
+    z, zc = obs[I_ZERO], obs[I_PRE_ZERO]["charge"]
+    if z["rate"] != 0 or z["power"] != 0 or z["charge"] != zc:
+        return "zero pilot delivered something: rate %r power %r charge %r -> %r" % (z["rate"], z["power"], zc, z["charge"])
     r = obs[I_RESET]
     if r["charge"] != spec["init"] or r["power"] != 0:
         return "reset() did not restore the initial state: charge %r power %r" % (r["charge"], r["power"])
